@@ -1,41 +1,9 @@
 // append-to: src/vt.rs
-// harness: k_feed_str_is_fold props=C12,C13,C15,C02 kind=bounded tier=thorough timeout=2400 obligation=Vt::feed_str(fold of feed, then changes() and gc()) bound="2x1 terminal, limit 0, one ASCII character from a class-covering alphabet (ESC [ digit ; final printable LF CR)"
-// harness: k_vt_resize_a props=C02,C13,C15 kind=bounded tier=thorough timeout=1800 obligation=Vt::resize(= Terminal::resize, then changes(), then gc()) bound="2x2 terminal with one scrollback line, limit 0, resize to 3x1"
-// harness: k_vt_resize_b props=C02,C13,C15 kind=bounded tier=thorough timeout=900 obligation=Vt::resize bound="2x2 terminal with one scrollback line, limit 0, resize to 1x3"
+// harness: k_vt_resize_a props=C02,C13,C15 fns=Vt::resize kind=bounded tier=thorough timeout=1800 obligation=Vt::resize(= Terminal::resize, then changes(), then gc()) bound="2x2 terminal with one scrollback line, limit 0, resize to 3x1"
+// harness: k_vt_resize_b props=C02,C13,C15 fns=Vt::resize kind=bounded tier=thorough timeout=900 obligation=Vt::resize bound="2x2 terminal with one scrollback line, limit 0, resize to 1x3"
 #[cfg(kani)]
 mod verif_kani_vt {
     use super::*;
-
-    fn pick(k: u8) -> u8 {
-        // class-covering alphabet: ESC [ digit ; final printable LF CR
-        match k % 8 { 0 => 0x1b, 1 => b'[', 2 => b'2', 3 => b';', 4 => b'H', 5 => b'x', 6 => b'\n', _ => b'\r' }
-    }
-
-    #[kani::proof]
-    #[kani::unwind(6)]
-    fn k_feed_str_is_fold() {
-        let b = [pick(kani::any())];
-        let s = core::str::from_utf8(&b).unwrap();
-        let mut v1 = Vt::builder().size(2, 1).scrollback_limit(0).build();
-        let mut v2 = Vt::builder().size(2, 1).scrollback_limit(0).build();
-        let lines1 = {
-            let ch = v1.feed_str(s);
-            let l = ch.lines.clone();
-            drop(ch);
-            l
-        };
-        v2.feed(b[0] as char);
-        let lines2 = v2.terminal.changes();
-        drop(v2.terminal.gc());
-        // [C12] same screen, cursor and parser state whichever way the input was fed
-        assert!(v1.cursor() == v2.cursor());
-        assert!(v1.parser.state == v2.parser.state);
-        assert!(v1.view() == v2.view());
-        assert!(lines1 == lines2);
-        // [C13] limit 0: exactly `rows` lines after the call
-        assert!(v1.lines().len() == 1);
-        kani::cover!(v1.cursor().col == 1);
-    }
 
     fn resize_case(cols: usize, rows: usize) {
         let mut v = Vt::builder().size(2, 2).scrollback_limit(0).build();
